@@ -30,8 +30,8 @@ ASSUMPTIONS = [
 EXTS = ["py", "rs", "js", "md", "go", "sh"]
 OPENER = {"py": "#", "rs": "//", "js": "//", "md": None, "go": "//", "sh": "#"}
 DIRS = ["", "", "src", "src/core", "docs", "a", "b", "b/b", "a/b", "dir with space", "dots.in.name", "gen", "rooted",
-        "src/gen", ".hidden", "src/.cache", "deep/er/still/more"]
-STEMS = ["main", "util", "x y", "mod.test", "readme", "b", "a", "gen", "data.gen", "w"]
+        "src/gen", ".hidden", "src/.cache", "deep/er/still/more", "notes.md", "pkg/build", "gen,old"]
+STEMS = ["main", "util", "x y", "mod.test", "readme", "b", "a", "gen", "data.gen", "w", "2024,q1", "build"]
 
 
 def _ext(path):
@@ -86,8 +86,12 @@ def gen_globs(r, paths, n):
     out = []
     for _ in range(n):
         p = r.choice(paths)
-        kind = r.randrange(4)
-        if kind == 0:
+        kind = r.randrange(6)
+        if kind >= 4 and "/" in p:
+            # a glob that matches a *directory's* own path (its last component, or the exact path): no file path matches it
+            d = p.rsplit("/", 1)[0]
+            out.append("**/" + d.rsplit("/", 1)[-1] if kind == 4 else d)
+        elif kind == 0:
             out.append("*." + p.rsplit(".", 1)[-1])
         elif kind == 1 and "/" in p:
             parts = p.split("/")
